@@ -71,7 +71,13 @@ def run(tier, seed):
         sample = qs if tier == "quick" else ts
         return item, runner.run_driver({f: vhs[f] for f in A2}, driver, seed, tier, wdir, per_case_timeout=tmo, env_extra=SAN_ENV, sample=sample, workers=6)
 
-    # several drivers at a time: most quick samples are too small to keep 16 cores busy on their own
+    # several drivers at a time: most quick samples are too small to keep 16 cores busy on their own; the MPI runs go alongside
+    import threading
+    mpi_out = engine.Outcome(pid, tier, seed)
+    mpi_thread = None
+    if not only:
+        mpi_thread = threading.Thread(target=mpi_sanitized, args=(mpi_out, vhs["A-real"], vhs["P-real"], wdir, seed, tier))
+        mpi_thread.start()
     with cf.ThreadPoolExecutor(max_workers=4) as ex:
         results = list(ex.map(go, plan))
     for (item, merged) in results:
@@ -105,7 +111,14 @@ def run(tier, seed):
         for case in res.cases:
             out.add_case(case, "bounds", fl)
     engine.record_incidents(out, merged, "bounds", {f: vhs[f] for f in ("P-real", "P-cplx")}, seed, tier, key_driver="workload")
-    mpi_sanitized(out, vhs["A-real"], vhs["P-real"], wdir, seed, tier)
+    if mpi_thread is not None:
+        mpi_thread.join()
+        for k, w in mpi_out.violations.items():
+            for _ in range(mpi_out.vcount.get(k, 1)):
+                out.add_violation(k, w)
+        for k, v in mpi_out.counters.items():
+            out.counters[k] = out.counters.get(k, 0) + v
+        out.infra.extend(mpi_out.infra); out.inconclusive.extend(mpi_out.inconclusive)
     out.extra["cases_executed_under_sanitizers"] = executed
     if tier == "thorough":
         memcheck(out, vhs["P-real"], wdir, seed, tier)
@@ -123,7 +136,7 @@ def mpi_sanitized(out, vh_asan, vh_plain, wdir, seed, tier):
     runs = [("asan", vh_asan, 3, 0, 4 if tier == "quick" else 14, dict(SAN_ENV)), ("asan", vh_asan, 5, 4, 7 if tier == "quick" else 30, dict(SAN_ENV))]
     supp = "/usr/share/openmpi/openmpi-valgrind.supp"
     vg = ["valgrind", "--tool=memcheck", "-q", "--error-exitcode=0", "--num-callers=30", "--leak-check=no", "--track-origins=no"] + (["--suppressions=" + supp] if os.path.exists(supp) else [])
-    runs.append(("memcheck", vg + [vh_plain], 5, 0, 2 if tier == "quick" else 8, {"VH_STDERR_MARKERS": "1"}))
+    runs.append(("memcheck", vg + [vh_plain], 5, 0, 1 if tier == "quick" else 8, {"VH_STDERR_MARKERS": "1"}))
     for (tool, vh, np_, lo, hi, env) in runs:
         tag = "mpi.%s.np%d" % (tool, np_)
         odir = os.path.join(wdir, tag + ".stderr")
